@@ -38,41 +38,44 @@ def ecOf (data gen : List Nat) : List Nat :=
   let buf := divisionBuf data gen
   (List.range (gen.length - 1)).map fun j => buf.getD (256 - gen.length + j) 0
 
+/-- `&data[s..s+len]` -/
+def sliceOf (data : Array Nat) (s len : Nat) : Chk (List Nat) :=
+  if s + len ≤ data.size then ⟨(List.range len).map fun k => data.getD (s + k) 0, []⟩
+  else ⟨[], [.indexOOB 124]⟩
+
+/-- one iteration of the EC loops (l.123-130 / l.132-140): divide the block starting at `off` of
+`sz` codewords and store its EC codewords at `startErr + j * total + col` -/
+def ecBlock (data : Array Nat) (gen : List Nat) (startErr total : Nat) (out : Array Nat) (off sz col : Nat) :
+    Chk (Array Nat) := do
+  let blk ← sliceOf data off sz
+  let _ ← (⟨(), divisionTraps blk gen⟩ : Chk Unit)
+  let ec := ecOf blk gen
+  (ec.zipIdx).foldlM (fun out (ej : Nat × Nat) =>
+    let idx := startErr + ej.2 * total + col
+    if idx < 5430 then pure (out.setIfInBounds idx ej.1) else (⟨out, [.indexOOB 127]⟩ : Chk _)) out
+
+/-- source indices of the data interleave loop (l.145-160), in the order they are pushed -/
+def dataIdxs (g1c g1s g2c g2s : Nat) : List Nat :=
+  (List.range (max g1s g2s)).flatMap fun i =>
+    (if i < g1s then (List.range g1c).map (fun j => j * g1s + i) else []) ++
+    (if i < g2s then (List.range g2c).map (fun j => j * g2s + i + g1s * g1c) else [])
+
 /-- `structure(data, quality, version)`: 5430-byte interleaved sequence -/
 def structureBuf (data : Array Nat) (l : ECL) (v : Nat) : Chk (Array Nat) := do
   let gen := T.generator l v
-  let (g1c, g1s, g2c, g2s) := T.groups l v
-  let total := g1c + g2c
+  let g := T.groups l v
+  let total := g.1 + g.2.2.1
   let startErr := T.dataCodewords l v
   let out0 : Array Nat := Array.replicate 5430 0
-  let slice (s len : Nat) : Chk (List Nat) :=
-    if s + len ≤ data.size then ⟨(List.range len).map fun k => data.getD (s + k) 0, []⟩
-    else ⟨[], [.indexOOB 124]⟩
   let _ ← guard (decide (gen.length ≥ 1)) (.subUnderflow 126)
   -- group 1 EC
-  let out1 ← (List.range g1c).foldlM (fun out i => do
-      let blk ← slice (i * g1s) g1s
-      let _ ← (⟨(), divisionTraps blk gen⟩ : Chk Unit)
-      let ec := ecOf blk gen
-      (ec.zipIdx).foldlM (fun out (e, j) =>
-        let idx := startErr + j * total + i
-        if idx < 5430 then pure (out.setIfInBounds idx e) else (⟨out, [.indexOOB 127]⟩ : Chk _)) out) out0
+  let out1 ← (List.range g.1).foldlM (fun out i => ecBlock data gen startErr total out (i * g.2.1) g.2.1 i) out0
   -- group 2 EC
-  let out2 ← (List.range g2c).foldlM (fun out i => do
-      let blk ← slice (g1s * g1c + i * g2s) g2s
-      let _ ← (⟨(), divisionTraps blk gen⟩ : Chk Unit)
-      let ec := ecOf blk gen
-      (ec.zipIdx).foldlM (fun out (e, j) =>
-        let idx := startErr + j * total + i + g1c
-        if idx < 5430 then pure (out.setIfInBounds idx e) else (⟨out, [.indexOOB 137]⟩ : Chk _)) out) out1
+  let out2 ← (List.range g.2.2.1).foldlM (fun out i =>
+      ecBlock data gen startErr total out (g.2.1 * g.1 + i * g.2.2.2) g.2.2.2 (i + g.1)) out1
   -- data interleave
-  let mx := max g1s g2s
-  let idxs : List Nat := (List.range mx).flatMap fun i =>
-    (if i < g1s then (List.range g1c).map (fun j => j * g1s + i) else []) ++
-    (if i < g2s then (List.range g2c).map (fun j => j * g2s + i + g1s * g1c) else [])
-  let r ← (idxs.zipIdx).foldlM (fun out (idx, push) =>
-      if idx < data.size ∧ push < 5430 then pure (out.setIfInBounds push (data.getD idx 0))
+  ((dataIdxs g.1 g.2.1 g.2.2.1 g.2.2.2).zipIdx).foldlM (fun out (ip : Nat × Nat) =>
+      if ip.1 < data.size ∧ ip.2 < 5430 then pure (out.setIfInBounds ip.2 (data.getD ip.1 0))
       else (⟨out, [.indexOOB 150]⟩ : Chk _)) out2
-  pure r
 
 end FastQr.Model
